@@ -82,3 +82,12 @@ claim("C15",
       "round-trip behaviour on every buffer is not decided.",
       "Trusts T-comp/T-liberr (library contracts transcribed from their headers), that library calls write only through the pointers they are handed, "
       "and clang's constant evaluation of the zlib/zstd macros.")
+
+claim("C19",
+      "taint + dominating-guard rule over abstract paths of mtbl_reader_init_fd (sources: values decoded from mapped bytes; sinks: T-extent readers), loop-bound derivation for the varint decoder, decision tables of block_init/block_iter_init",
+      "Decides: on every path of the open function each read of the mapping whose offset or length contains a file-derived quantity (trailer fields, "
+      "fixed/varint decodes) is preceded by a comparison of an expression containing that quantity with a file-size-derived expression, continuing on "
+      "the in-bounds side; the trailer read is preceded by size >= 512; the varint decoder touches at most 10/5 bytes (derived from its loop); "
+      "block_init marks every inconsistent restart layout empty and block_iter_init stops on blocks shorter than 8 bytes. Presence and dominance of the "
+      "guards are decided, not the algebra of each inequality (overflow corner cases of the arithmetic are not decided).",
+      "Trusts T-extent (which callee reads how many bytes), mmap/fstat contracts, and data-block lengths at get_block being outside this property's statement.")
